@@ -52,9 +52,10 @@ def run_one(sc):
     fid = sc.get("fid", 1)
     env = Environment()
     ev, tm = [], []
-    # a run that completes needs far fewer events (about a quarter of this on every scenario tried); a sender and sink
-    # that keep answering each other for ever are cut off here and the trace ends in an X event
-    limit = 60 + 24 * n + 24 * (len(dd) + len(ad))
+    # a run that completes needs far fewer events (at most about a third of this on every scenario tried, at most half
+    # for long flows whose RTO has collapsed onto the RTT so that every window is retransmitted once -- the n*n term);
+    # a sender and sink that keep answering each other for ever are cut off here and the trace ends in an X event
+    limit = sc.get("cap") or 60 + 24 * n + 24 * (len(dd) + len(ad)) + n * n // 4
     premise = [True]
     st = {"inside": False, "nfr": 0, "sender": None}
     sent_before = set()
